@@ -1,4 +1,5 @@
 import EpgVerif.Props.C05
+import EpgVerif.Tie.PhysSites
 open EpgVerif.Props.C05
 #print axioms ramp_integral
 #print axioms bmatRamp_is_integral
@@ -15,3 +16,4 @@ open EpgVerif.Props.C05
 #print axioms EpgVerif.Tie.Diffusion.bmat1_tie
 #print axioms EpgVerif.Tie.Diffusion.att_scalar_tie
 #print axioms EpgVerif.Tie.Diffusion.att_tensor_tie
+#print axioms EpgVerif.Tie.PhysSites.sites_as_modelled
